@@ -1,4 +1,5 @@
 import AlphaG.Props.C09bStages
+import AlphaG.Props.C13b
 /-
 C09b — `MainEvent::vertex()` as the composition of its stage models
 (`Model/VertexPipeline.lean`, tied to the built code by harness/src/c09b.rs): what the composition
@@ -254,5 +255,22 @@ theorem vertex_result_spec {E : α → α → Prop} {Num nan : α → Prop} (H :
   · intro p hp
     obtain ⟨a, ha, sp, hsp, rfl⟩ := (stagePoints_ok P avs pts h2).2 p hp
     exact ⟨a, ha, sp, hsp, rfl, spacePoint_ok_z _ _ _ sp hsp⟩
+
+/-! ### The first site in exact arithmetic -/
+
+/-- With C13b: when the deconvolution arithmetic is that of a linearly ordered field (with a square
+root that squares back on positive values) and the neighbour factors are the diagonally dominant
+ones of the code (`C13b.a_matrix_diag_dominant`), no wire block's pivot fails — site 1 of the
+inventory is a pure rounding question, for every block length. -/
+theorem pivot_never_fails_exact {K : Type} [Field K] [LinearOrder K] [IsStrictOrderedRing K] (top : K)
+    (P : Pipe K) (hd : P.deconv = AlphaG.C13b.exactOps K top)
+    (hs : AlphaG.C13b.SqrtOk P.tables.sqrt) (hf : AlphaG.C13b.NeighbourFactorsOk P.tables.factors)
+    (r : Nat × Nat) : ¬ PivotFails P r := by
+  unfold PivotFails
+  rw [hd]
+  intro h
+  have := AlphaG.C13b.cholesky_pivots_pos top P.tables.sqrt hs P.tables.factors hf (blockLen r)
+  rw [h] at this
+  cases this
 
 end AlphaG.VertexPipeline
